@@ -92,7 +92,7 @@ type c03gen struct {
 	macros []string
 	// names of blocks whose definition is complete (block() on them cannot recurse)
 	doneBlocks []string
-	pre    []gen.Node // macro definitions hoisted to the top of the template
+	pre        []gen.Node // macro definitions hoisted to the top of the template
 }
 
 func (g *c03gen) id() string { g.seq++; return strconv.Itoa(g.seq) }
